@@ -17,6 +17,7 @@ import (
 	"path/filepath"
 	"runtime"
 	"strconv"
+	"strings"
 	"sync"
 	"time"
 
@@ -34,7 +35,7 @@ type stressWorld struct {
 }
 
 func (sw *stressWorld) onYield(point string, args ...any) {
-	if len(args) < 2 {
+	if len(args) < 2 || !strings.HasPrefix(point, "swamp.") {
 		return
 	}
 	nm, _ := args[0].(string)
